@@ -43,7 +43,7 @@ type Report struct {
 }
 
 func newReport(prop, tier string, p *Prog) *Report {
-	return &Report{Property: prop, Tier: tier, P: p, ruleIdx: map[string]*RuleInfo{}, start: time.Now(), seen: map[string]bool{}}
+	return &Report{Property: prop, Tier: tier, P: p, ruleIdx: map[string]*RuleInfo{}, start: time.Now(), seen: map[string]bool{}, Notes: []string{}, Assume: []string{}}
 }
 
 // Rule declares a rule and its vacuity floor.
@@ -213,7 +213,7 @@ func (r *Report) Finish(evidenceDir string, known *knownFile, checkerCmd string,
 	for _, ri := range r.rules {
 		expl = append(expl, ri.ID+": "+ri.Text)
 	}
-	var samples []interface{}
+	samples := []interface{}{}
 	for _, o := range r.Obs {
 		if o.Status != "discharged" {
 			samples = append(samples, o)
